@@ -5,6 +5,7 @@ import (
 	"fmt"
 	"math/rand"
 	"os"
+	"os/exec"
 	"path/filepath"
 	"strings"
 	"time"
@@ -122,9 +123,49 @@ func backupEngine() {
 					n = fi.Size()
 				}
 			}
+			// the byte-level model of WriteTo (Model/Backup.lean) on the source file as it is now and
+			// the meta of this read transaction: no writer is running at this point; when no commit
+			// happened DURING the copy the whole copy must equal the model's bytes, else (pages outside
+			// the reader's version may have been read before or after those commits) the two meta pages
+			mtxid, mroot, mseq, mfl, mpgid := rtx.VerifMeta()
+			srcSnap := filepath.Join(dir, "src-snap.db")
+			if err == nil && *flagModel != "" {
+				_ = copyFile(srcSnap, e.Path)
+			}
 			_ = rtx.Rollback()
 			if sibling != nil {
 				_ = sibling.Rollback()
+			}
+			if err == nil && *flagModel != "" {
+				mo := filepath.Join(dir, "model-backup.db")
+				_ = os.Remove(mo)
+				out, merr := exec.Command(*flagModel, "backup", srcSnap, mo, fmt.Sprint(o.PageSize), fmt.Sprint(mroot), fmt.Sprint(mseq), fmt.Sprint(mfl), fmt.Sprint(mpgid), fmt.Sprint(mtxid)).Output()
+				a, e1 := os.ReadFile(copyPath)
+				b, e2 := os.ReadFile(mo)
+				rep.Evaluations++
+				if merr != nil || !strings.HasPrefix(string(out), "ok ") || e1 != nil || e2 != nil {
+					rep.violation("C14", "correspondence", "model-driver-failed", fmt.Sprintf("%s %v %v %v", truncate(string(out), 80), merr, e1, e2), rp)
+				} else {
+					lim := len(a)
+					what := "the copy"
+					if during > 0 {
+						lim, what = 2*o.PageSize, "the two meta pages of the copy"
+					}
+					if len(a) != len(b) || lim > len(a) || !bytes.Equal(a[:lim], b[:lim]) {
+						at := 0
+						for at < lim && at < len(a) && at < len(b) && a[at] == b[at] {
+							at++
+						}
+						rep.Disagree++
+						rep.violation("C14", "correspondence", "backup-model-vs-impl", fmt.Sprintf("%s: %s (%d bytes) and the model's WriteTo (%d bytes) differ first at offset %d (reader age %d commits, %d during the copy)", mode, what, len(a), len(b), at, age, during), rp)
+					} else if during > 0 {
+						rep.count("model-metas")
+					} else {
+						rep.count("model-bytes")
+					}
+				}
+				_ = os.Remove(mo)
+				_ = os.Remove(srcSnap)
 			}
 			rep.count(mode)
 			if err != nil {
